@@ -176,3 +176,17 @@ V("C10", "write-other-format", PYR, "            self.write_image(pos, img, form
   note="format=None resolves to the default format inside write_image: same file")
 V("C10", "write-other-pos", PYR, "            yield img\n            self.write_image(pos, img, format=format or self._default_format)", "            yield img\n            self.write_image(Pos(pos.n, pos.x, pos.y + 1), img, format=format or self._default_format)", "C10.R4")
 V("C10", "P-filelock", PYR, "        from filelock import SoftFileLock\n\n        p = self.tile_path(pos)\n\n        with SoftFileLock(p + \".lock\"):", "        from filelock import FileLock\n\n        p = self.tile_path(pos)\n\n        with FileLock(p + \".lock\"):", "HOLDS")
+
+# ---------------------------------------------------------------- C11
+V("C11", "one-pixel-shift", SAMP, "    lon0 = -np.pi + 0.5 / dx  # longitudes of the centers of the pixels with ix = 0", "    lon0 = -np.pi + 1.5 / dx  # longitudes of the centers of the pixels with ix = 0", "C11.R3")
+V("C11", "no-clip", SAMP, "        lon = lon % TWOPI  # ensure in range [0, 2pi]\n        ix = (lon - lon0) * dx\n        ix = np.round(ix).astype(int)\n        ix = np.clip(ix, 0, nx - 1)", "        lon = lon % TWOPI  # ensure in range [0, 2pi]\n        ix = (lon - lon0) * dx\n        ix = np.round(ix).astype(int)", "C11.R1")
+V("C11", "transposed", SAMP, "        iy = np.clip(iy, 0, ny - 1)\n\n        return data[iy, ix]\n\n    return vec2pix\n\n\ndef plate_carree_planet_zeroleft_sampler", "        iy = np.clip(iy, 0, ny - 1)\n\n        return data[ix, iy]\n\n    return vec2pix\n\n\ndef plate_carree_planet_zeroleft_sampler", "C11.R1")
+V("C11", "mod-pi", SAMP, "        lon = lon % TWOPI  # ensure in range [0, 2pi]\n        ix = (lon0 - lon) * dx", "        lon = lon % np.pi  # ensure in range [0, 2pi]\n        ix = (lon0 - lon) * dx", "C11.R2")
+V("C11", "clip-wrong-axis", SAMP, "        iy = np.clip(iy, 0, ny - 1)\n\n        return data[iy, ix]\n\n    return vec2pix\n\n\ndef plate_carree_galactic_sampler", "        iy = np.clip(iy, 0, nx - 1)\n\n        return data[iy, ix]\n\n    return vec2pix\n\n\ndef plate_carree_galactic_sampler", "C11.R1")
+V("C11", "planet-leftward", SAMP, "        lon = (lon + np.pi) % TWOPI - np.pi  # ensure in range [-pi, pi]\n        ix = (lon - lon0) * dx", "        lon = (lon + np.pi) % TWOPI - np.pi  # ensure in range [-pi, pi]\n        ix = (-lon0 - lon) * dx", "C11.R4")
+V("C11", "no-wrap", SAMP, "        lon = lon % TWOPI  # ensure in range [0, 2pi]\n        ix = (lon - lon0) * dx", "        ix = (lon - lon0) * dx", "C11.R2")
+V("C11", "truncate", SAMP, "        lon = lon % TWOPI  # ensure in range [0, 2pi]\n        ix = (lon - lon0) * dx\n        ix = np.round(ix).astype(int)", "        lon = lon % TWOPI  # ensure in range [0, 2pi]\n        ix = (lon - lon0) * dx\n        ix = ix.astype(int)", "C11.R1")
+V("C11", "galactic-no-rotation", SAMP, "        gal = ICRS(lon * u.rad, lat * u.rad).transform_to(Galactic)\n        lon, lat = gal.l.rad, gal.b.rad\n", "", "C11.R")
+V("C11", "lat-flipped", SAMP, "    lat0 = HALFPI - 0.5 / dy  # latitudes of the centers of the pixels with iy = 0\n\n    def vec2pix(lon, lat):\n        lon = lon % TWOPI  # ensure in range [0, 2pi]\n        ix = (lon0 - lon) * dx", "    lat0 = -HALFPI + 0.5 / dy  # latitudes of the centers of the pixels with iy = 0\n\n    def vec2pix(lon, lat):\n        lon = lon % TWOPI  # ensure in range [0, 2pi]\n        ix = (lon0 - lon) * dx", "C11.R3")
+V("C11", "P-equivalent-algebra", SAMP, "        lon = lon % TWOPI  # ensure in range [0, 2pi]\n        ix = (lon - lon0) * dx\n        ix = np.round(ix).astype(int)\n        ix = np.clip(ix, 0, nx - 1)", "        wrapped = np.mod(lon, 2 * np.pi)\n        ix = wrapped * nx / (2 * np.pi) - 0.5\n        ix = np.clip(np.round(ix).astype(int), 0, nx - 1)", "HOLDS")
+V("C11", "P-shift-3pi", SAMP, "        lon = (lon + np.pi) % TWOPI - np.pi  # ensure in range [-pi, pi]\n        ix = (lon - lon0) * dx", "        lon = (lon + 3 * np.pi) % TWOPI - np.pi  # ensure in range [-pi, pi]\n        ix = (lon - lon0) * dx", "HOLDS")
